@@ -11,9 +11,12 @@ type builder struct {
 	next uint16
 }
 
+// KeySalt varies the master keys of all ASes built afterwards (different key sets for the same topology).
+var KeySalt = ""
+
 func (b *builder) as(ia string, core bool) int {
 	i := len(b.t.ASes)
-	key := []byte(fmt.Sprintf("master-key-of-%02d-%s", i, ia))
+	key := []byte(fmt.Sprintf("master-key-of-%02d-%s%s", i, ia, KeySalt))
 	b.t.ASes = append(b.t.ASes, AS{IA: addr.MustParseIA(ia), Core: core, Key: key, MTU: uint16(1400 + 8*i), BROf: map[uint16]int{}})
 	return i
 }
@@ -186,6 +189,39 @@ func Chain(up, core, down int, split int) *Topo {
 	}
 	t := b.t
 	t.Name = fmt.Sprintf("chain-%d-%d-%d/split=%d", up, core, down, split)
+	t.split(split)
+	return &t
+}
+
+// Comb builds a core AS with two branches A and B of k ASes each, a side leaf under every branch AS (so that
+// up/down segments join at every depth: shortcuts) and peering links between the branches at the given depths.
+func Comb(k int, peerAt []int, split int) *Topo {
+	b := &builder{}
+	c := b.as("1-ff00:0:1", true)
+	var as, bs []int
+	prevA, prevB := c, c
+	for i := 1; i <= k; i++ {
+		a := b.as(fmt.Sprintf("1-ff00:a:%x", i), false)
+		bb := b.as(fmt.Sprintf("1-ff00:b:%x", i), false)
+		b.link(prevA, a, ParentChild)
+		b.link(prevB, bb, ParentChild)
+		la := b.as(fmt.Sprintf("1-ff00:c:%x", i), false)
+		lb := b.as(fmt.Sprintf("1-ff00:d:%x", i), false)
+		b.link(a, la, ParentChild)
+		b.link(bb, lb, ParentChild)
+		prevA, prevB = a, bb
+		as, bs = append(as, a), append(bs, bb)
+	}
+	for _, d := range peerAt {
+		if d >= 1 && d <= k {
+			b.link(as[d-1], bs[d-1], PeerLink)
+			if d < k {
+				b.link(as[d-1], bs[d], PeerLink)
+			}
+		}
+	}
+	t := b.t
+	t.Name = fmt.Sprintf("comb-%d/peer=%v/split=%d", k, peerAt, split)
 	t.split(split)
 	return &t
 }
